@@ -180,7 +180,10 @@ GRAPH_LINES = ["%include a.conf", "%include b.conf", "%include c.conf", "%includ
                "%include adir", "%include sub/../a.conf", "%include ./b.conf",
                "%import ZConfig.components.basic", "%import nosuchpackage", "%import os",
                "%import xml", "%import zcv.no.such", "%import", "%include",
-               "%define x a.conf", "%include $x", "%include ${nope}"]
+               "%define x a.conf", "%include $x", "%include ${nope}",
+               # a name that is defined, to nothing, used where a directive expects its words
+               "%define zcvnone\n%define $zcvnone", "%define zcvnone\n%define $zcvnone v", "%define zcvnone\n%include $zcvnone",
+               "%define zcvnone\n%import $zcvnone", "%define zcvnone\n$zcvnone v", "%define zcvnone\n<$zcvnone>"]
 # include arguments in URL syntax that cannot be opened (no network is touched: unknown schemes,
 # malformed authority, data: and package: forms)
 GRAPH_URL_LINES = ["%include etc:local.conf", "%include mailto:x", "%include http:///x", "%include data:x",
@@ -195,7 +198,9 @@ GRAPH_URL_LINES = ["%include etc:local.conf", "%include mailto:x", "%include htt
                    "%include package:ZConfig.components.basic:", "%include package:ZConfig.components.basic:nosuch.xml",
                    # names no file can have
                    "%include part%00.conf", "%include a\x00b.conf", "%include file:///tmp/%00", "%include " + "d/" * 3000 + "x.conf",
-                   "%include http://[::1/x.conf", "%include http://\u2100/x"]
+                   "%include http://[::1/x.conf", "%include http://\u2100/x",
+                   "%include package:.ZConfig:component.xml", "%include package:.os:x", "%include package:..ZConfig:x",
+                   "%include package:ZConfig.:x", "%include package: :x"]
 
 
 def gen_graph(rng, sm):
